@@ -143,7 +143,14 @@ func runVariant(self string, c *Ctx, v variant) variantResult {
 		os.WriteFile(filepath.Join(tmp, "known_findings.json"), b, 0o644)
 	}
 	cmd := exec.Command(self, v.Property, "quick")
-	cmd.Env = append(os.Environ(), "GRIBILINT_OVERLAY="+ovPath, "GRIBILINT_VERIF="+tmp)
+	// the variant is judged the way a tree is judged: by a fresh orchestrating process (both views)
+	var env []string
+	for _, e := range os.Environ() {
+		if !strings.HasPrefix(e, "GRIBILINT_CHILD=") && !strings.HasPrefix(e, "GRIBILINT_SPLICE_MULTI=") {
+			env = append(env, e)
+		}
+	}
+	cmd.Env = append(env, "GRIBILINT_OVERLAY="+ovPath, "GRIBILINT_VERIF="+tmp)
 	out, err := cmd.CombinedOutput()
 	code := 0
 	if ee, ok := err.(*exec.ExitError); ok {
